@@ -210,7 +210,8 @@ theorem callee_step (t : ATy) (ogp ofp top off : Nat) (hok : aggSizeOk t = true)
     (offsetStep (ogp, ofp, top) t).1.1 = (refStep (ogp, ofp, off) t).1.1 ∧
     (offsetStep (ogp, ofp, top) t).1.2.1 = (refStep (ogp, ofp, off) t).1.2.1 ∧
     alignTo (offsetStep (ogp, ofp, top) t).1.2.2 8 = 16 + (refStep (ogp, ofp, off) t).1.2.2 ∧
-    (∀ v, (offsetStep (ogp, ofp, top) t).2 = some v → (refStep (ogp, ofp, off) t).2 = .stack (v - 16)) ∧
+    (∀ v, (offsetStep (ogp, ofp, top) t).2 = some v → (refStep (ogp, ofp, off) t).2 = .stack (v - 16) ∧
+      min (refStep (ogp, ofp, off) t).1.1 GP_MAX = min ogp GP_MAX ∧ min (refStep (ogp, ofp, off) t).1.2.1 FP_MAX = min ofp FP_MAX) ∧
     ((offsetStep (ogp, ofp, top) t).2 = none →
       ∃ ss, storeStep (min ogp GP_MAX, min ofp FP_MAX) t
           = .ok ((min (refStep (ogp, ofp, off) t).1.1 GP_MAX, min (refStep (ogp, ofp, off) t).1.2.1 FP_MAX), ss) ∧
@@ -260,7 +261,102 @@ theorem callee_step (t : ATy) (ogp ofp top off : Nat) (hok : aggSizeOk t = true)
         by_cases e1 : hasFlonum (.agg u sz al ms) 0 8 0 = true <;>
           by_cases e2 : hasFlonum (.agg u sz al ms) 8 16 0 = true <;>
           by_cases h8 : sz > 8 <;>
-          simp [e1, e2, h8, Store.reg, bind, Except.bind, pure, Except.pure] at hok' hf1 hf2 ⊢ <;> (trace_state; sorry)
+          simp [e1, e2, h8, Store.reg, bind, Except.bind, pure, Except.pure] at hok' hf1 hf2 ⊢ <;>
+          (refine ⟨by omega, ?_⟩
+           repeat (rw [if_pos (by omega)])
+           simp
+           refine ⟨_, ⟨?_, rfl⟩, ?_⟩
+           · first | omega | (constructor <;> omega)
+           · simp [Store.reg]; omega)
     · simp [h16]; omega
+
+
+theorem offsetLoop_cons (st : Nat × Nat × Nat) (t : ATy) (ts : List ATy) :
+    offsetLoop st (t :: ts) =
+      ((offsetLoop (offsetStep st t).1 ts).1, (offsetStep st t).2 :: (offsetLoop (offsetStep st t).1 ts).2) := rfl
+
+theorem callee_loop (ts : List ATy) : ∀ (ogp ofp top off : Nat), ts.all aggSizeOk = true → alignTo top 8 = 16 + off →
+    ∃ stores, storeLoop (min ogp GP_MAX, min ofp FP_MAX) ts (offsetLoop (ogp, ofp, top) ts).2 = .ok stores ∧
+      combineCallee (offsetLoop (ogp, ofp, top) ts).2 stores = (refLoop (ogp, ofp, off) ts).2 := by
+  induction ts with
+  | nil => intro _ _ _ _ _ _; exact ⟨[], rfl, rfl⟩
+  | cons t ts ih =>
+    intro ogp ofp top off hok hinv
+    simp only [List.all_cons, Bool.and_eq_true] at hok
+    obtain ⟨h1, h2, h3, h4, h5⟩ := callee_step t ogp ofp top off hok.1 hinv
+    rw [offsetLoop_cons, refLoop_cons]
+    have ho : (offsetStep (ogp, ofp, top) t).1 =
+        ((refStep (ogp, ofp, off) t).1.1, (refStep (ogp, ofp, off) t).1.2.1, (offsetStep (ogp, ofp, top) t).1.2.2) :=
+      Prod.ext h1 (Prod.ext h2 rfl)
+    have hr : (refStep (ogp, ofp, off) t).1 =
+        ((refStep (ogp, ofp, off) t).1.1, (refStep (ogp, ofp, off) t).1.2.1, (refStep (ogp, ofp, off) t).1.2.2) := rfl
+    rw [ho, hr]
+    obtain ⟨stores, hs, hc⟩ := ih (refStep (ogp, ofp, off) t).1.1 (refStep (ogp, ofp, off) t).1.2.1
+      (offsetStep (ogp, ofp, top) t).1.2.2 (refStep (ogp, ofp, off) t).1.2.2 hok.2 h3
+    cases ho2 : (offsetStep (ogp, ofp, top) t).2 with
+    | some v =>
+      obtain ⟨hloc, hg, hf⟩ := h4 v ho2
+      -- a stack parameter: the store loop skips it; the register counters do not move
+      have hst : (min (refStep (ogp, ofp, off) t).1.1 GP_MAX, min (refStep (ogp, ofp, off) t).1.2.1 FP_MAX)
+          = (min ogp GP_MAX, min ofp FP_MAX) := by rw [hg, hf]
+      refine ⟨[] :: stores, ?_, ?_⟩
+      · simp only [storeLoop]; rw [← hst, hs]; rfl
+      · simp only [combineCallee, hc, hloc]
+    | none =>
+      obtain ⟨ss, hss, hloc⟩ := h5 ho2
+      refine ⟨ss :: stores, ?_, ?_⟩
+      · simp only [storeLoop, hss, hs, bind, Except.bind, pure, Except.pure]
+      · simp only [combineCallee, hc, hloc]
+
+
+theorem refLoop_take (ts : List ATy) : ∀ (n : Nat) (st : Nat × Nat × Nat),
+    (refLoop st (ts.take n)).2 = (refLoop st ts).2.take n := by
+  induction ts with
+  | nil => intro n st; simp [refLoop]
+  | cons t ts ih =>
+    intro n st
+    cases n with
+    | zero => simp [refLoop]
+    | succ n => simp only [List.take_succ_cons, refLoop_cons, ih]
+
+theorem all_take {α : Type} (p : α → Bool) (l : List α) (n : Nat) (h : l.all p = true) : (l.take n).all p = true := by
+  rw [List.all_eq_true] at h ⊢
+  intro x hx
+  exact h x (List.mem_of_mem_take hx)
+
+theorem calleeAssign_eq (s : Sig) (h : s.params.all aggSizeOk = true) :
+    calleeAssign s = .ok (refLoop (b2n (retLarge s.ret), 0, 0) s.named).2 := by
+  have hn : s.named.all aggSizeOk = true := all_take _ _ _ h
+  have hall : (calleeParams s).all aggSizeOk = true := by
+    simp only [calleeParams]
+    cases retLarge s.ret <;> simp [hn, aggSizeOk]
+  have h16 : alignTo 16 8 = 16 + 0 := by decide
+  obtain ⟨stores, hs, hc⟩ := callee_loop (calleeParams s) 0 0 16 0 hall h16
+  have hs' : prologueStores s = .ok stores := by
+    simpa [prologueStores, calleeOffsets] using hs
+  simp only [calleeAssign, hs', bind, Except.bind, pure, Except.pure, calleeOffsets, hc]
+  cases hl : retLarge s.ret
+  · simp [calleeParams, hl, b2n]
+  · simp [calleeParams, hl, b2n, refLoop_cons, refStep, GP_MAX_eq]
+
+
+/-- at the `call` instruction exactly the padding and the first-pass pushes are on the stack: the second pass and the
+    hidden pointer have been popped into registers, and the `stack` counter of the classification loop counted exactly
+    what the first pass pushed -/
+theorem depthAtCall_eq (depth : Nat) (s : Sig) (h : s.params.all aggSizeOk = true) :
+    depthAtCall depth s = (depth : Int) + stackArgs depth s := by
+  have hb : min (b2n (retLarge s.ret)) GP_MAX = b2n (retLarge s.ret) := by
+    simp only [b2n, GP_MAX_eq]; split <;> omega
+  have h0 : min 0 FP_MAX = 0 := by simp
+  obtain ⟨_, h2, h3, _⟩ := caller_loop s.params (b2n (retLarge s.ret)) 0 0 0 h
+  rw [hb, h0] at h3
+  simp only [depthAtCall, stackArgs, classifyArgs, popPhase]
+  rw [h2, h3]
+  simp only [Nat.zero_add]
+  omega
+
+theorem stackArgs_parity (depth : Nat) (s : Sig) : (depth + stackArgs depth s) % 2 = 0 := by
+  simp only [stackArgs, padSlots]
+  split <;> omega
 
 end ChibiVerif.CallConv
